@@ -69,8 +69,8 @@ def gen_point(rng):
     if r < 0.4:
         return ('counter', gen_half(rng))
     if r < 0.7:
-        nb = rng.randint(0, 4)
-        bounds2 = sorted(rng.sample(range(0, 40), nb))
+        nb = rng.randint(0, 4) if rng.random() < 0.9 else rng.choice([30, 31, 32, 33, 40, 64])   # also histograms with many buckets
+        bounds2 = sorted(rng.sample(range(0, 40 if nb <= 4 else 200), nb))
         if nb and rng.random() < 0.12:
             bounds2[-1] = INF2          # an explicit +Inf upper boundary (ascending, accepted by MetricSpec and the SDK)
         r2 = rng.random()
@@ -157,13 +157,19 @@ def oracle(run, allow, metrics, facet, case):
         elif not isinstance(v, (int, float)) or isinstance(v, bool):
             run.violation('non-numeric key=%r' % k, 'non numeric value exported', case)
 
+RAISED = []
+
 def run_export(allow, data, exp=None):
     """one export cycle; with `exp` given, one more cycle of an exporter that has exported before"""
     if exp is None:
         exp = OTelLineageExporter(Lineage(), allowlist=(None if allow is None else set(allow)))
     lin = exp._lineage
     n0 = len(lin.calls)
-    exp.export(data)
+    try:
+        exp.export(data)
+    except Exception as e:      # noqa
+        RAISED.append('%s: %s' % (type(e).__name__, e))
+        return {}
     assert len(lin.calls) - n0 <= 1
     return lin.calls[-1] if len(lin.calls) > n0 else {}
 
@@ -233,6 +239,8 @@ def main():
             facet = run_export(allow, data, exporter)
             earlier = sorted(set(earlier) | set(facet) | {n + '_histogram' for n in facet})
             case = dict(allow=allow, metrics=metrics, cycle=cycle)
+            while RAISED:
+                run.violation('export:raises %s' % RAISED[0].split(':')[0], 'OTelLineageExporter.export raised %s' % RAISED.pop(0), case)
             run.count('export:cycle=%d' % cycle)
             oracle(run, allow, metrics, facet, case)
             run.count('export:allow=%s' % ('none' if allow is None else 'empty' if not allow else 'list'))
